@@ -1,6 +1,8 @@
 import Ecal.Drivers.Util
 import Ecal.Model.Conc
 import Ecal.Model.SinkSpec
+import Ecal.Model.SinkClosure
+import Ecal.Model.Scope
 /-!
 Driver of C11. Payload (space separated `key=value`):
   `w=<workers> h=<submitters> ev=<events> sinks=<n> ff=<0|1> body=<light|heavy> glob=<0|1> burst=<n>
@@ -12,7 +14,8 @@ error; echo records with the accumulator and `m.k`; the lock-protected global co
 declaring scope intact. By `errors_attributed` / `event_is_local` the interleaved model returns
 exactly these outcomes for every schedule, so the digest does not depend on w, h, burst, nap or
 the sink-body features; as a self-check the first invocations are also run through the
-interleaving model (`sinkSys`, `scopeSys`) under a schedule derived from the seed.
+interleaving models (`Ecal.Closure.closureSys []`, `Ecal.Scope.setupSys` with the real set-up order) under a
+schedule derived from the seed.
 Result: `E<n>:<digest> R<n>:<digest> T<counter|-> S<1|-> D0` (D = duplicate root monitor ids: every event
 has its own root monitor, the engine's ids are distinct).
 -/
@@ -45,14 +48,21 @@ def modelConsistent (c : Cfg) (w : Nat) : Bool :=
   let n := invs.length
   if n = 0 then true else
   let inv := fun t => invs.getD t ⟨0, 0, 0⟩
-  let outcome : Nat → Option Nat := fun t => let i := inv t; if i.fail = 0 then none else some (i.sink * 10 + i.fail + 100 * i.event)
-  let sched := schedOf (n * 6) c.seed w n ++ (List.range (n * 3)).map (· % n)
-  let fin := run (sinkSys [] outcome) ⟨fun _ => none, fun t => { event := t }⟩ sched
-  let g0 : String → Option Nat := fun x => if c.shadow ∧ x = eventCell then some 4242 else none
-  let sfin := run (scopeSys false) ⟨g0, fun t => { event := (inv t).event }⟩ sched
+  let outcome : Nat → Nat → Ecal.Closure.Outcome := fun s ev =>
+    match Ecal.SinkSpec.outcome c s ev with
+    | 0 => (none, none)
+    | m => (some (m + 10 * s + 100 * ev), some ev)
+  let sched := schedOf (n * 6) c.seed w n ++ (List.range (n * 5)).map (· % n)
+  let fin := run (Ecal.Closure.closureSys [] outcome)
+    ⟨fun _ => none, fun t => Ecal.Closure.fresh (inv t).sink (inv t).event⟩ sched
+  let g0 : Unit → Ecal.Scope.Chain := fun _ =>
+    [fun x => if c.shadow ∧ x = "event" then some 4242 else none]
+  let setup := [("NewScope", ""), ("SetValue", "event"), ("SetParentOfScope", ""), ("Eval", "")]
+  let sfin := run Ecal.Scope.setupSys
+    ⟨g0, fun t => { rest := setup, val := fun _ => (inv t).event, probe := "event" }⟩ sched
   (List.range n).all fun t =>
-    (fin.locals t).ret == some (outcome t) && (sfin.locals t).read1 == some (inv t).event &&
-    (sfin.locals t).read2 == some (inv t).event
+    (fin.locals t).ret == some (outcome (inv t).sink (inv t).event) &&
+    ((sfin.locals t).reads.all (· == some (inv t).event)) && !(sfin.locals t).reads.isEmpty
 
 def runCase (payload : String) : String :=
   let fs := payload.splitOn " "
